@@ -505,6 +505,10 @@ class PteraTransformer(NodeTransformer):
         new_body = []
 
         for external in sorted(self.external):
+            if not self.should_instrument(external):
+                # Not probed: leave it a plain global reference (an
+                # undefined name then fails at its use, as in Python)
+                continue
             new_body.extend(
                 self.make_interaction(
                     target=ast.Name(id=external, ctx=ast.Store()),
@@ -650,6 +654,15 @@ class PteraTransformer(NodeTransformer):
             x: int = _ptera_interact('x', int)
         """
         value = node.value and self.visit(node.value)
+        if (
+            value is None
+            and isinstance(node.target, ast.Name)
+            and not self.should_instrument(
+                node.target.id, self._ann(node.annotation)
+            )
+        ):
+            # A bare declaration of a variable nobody probes: nothing to do
+            return node
         return self.make_interaction(
             node.target, self._ann(node.annotation), value, orig=node
         )
